@@ -80,6 +80,10 @@ func runC02(t *testing.T, sc c02Scenario) verdict {
 		return verdict{vs: vs}
 	}
 	m0 := res.Obs[0].FanMin
+	// the minimum as the statement defines it - "the configured minPwm, else the measured one" - taken
+	// from the scenario, not from what the fan reports (a fan that reports less than was configured
+	// would otherwise lower its own floor)
+	mSpec := specMinPwm(sc.Loop.Fan)
 	prevR, prevK := -1, 0
 	raises, afterRaise := 0, 0
 	var trace []int
@@ -98,6 +102,9 @@ func runC02(t *testing.T, sc c02Scenario) verdict {
 		floor := m0 + k
 		if r < floor {
 			add("request-below-floor", fmt.Sprintf("cycle %d: request %d below initial minimum %d + %d raise(s) (requests so far %v)", i, r, m0, k, tail(trace, 8)))
+		}
+		if r < mSpec+k {
+			add("request-below-configured-minimum", fmt.Sprintf("cycle %d: request %d below the fan's configured/measured minimum %d + %d raise(s) (requests so far %v)", i, r, mSpec, k, tail(trace, 8)))
 		}
 		if k > prevK && prevR >= 0 && r <= prevR {
 			add("raise-not-above-stall-request", fmt.Sprintf("cycle %d: minimum raised but request %d is not above the stalled request %d", i, r, prevR))
@@ -125,6 +132,26 @@ func runC02(t *testing.T, sc c02Scenario) verdict {
 	}
 	return verdict{vs: vs, nontrivial: raises > 0 && afterRaise >= 3, labels: labels,
 		outcome: map[string]any{"m0": m0, "raises": raises, "cycles": len(trace), "lastRequests": tail(trace, 12), "ended": res.Ended}}
+}
+
+// specMinPwm is the minimum of a never-stop fan by the documented rule: the configured minPwm, else
+// the lowest PWM of the stored RPM curve at which the fan turns (whole RPM > 0); 0 for fans without
+// either (file / cmd fans, hwmon fans on the default linear curve).
+func specMinPwm(f sim.FanSpec) int {
+	if !f.NeverStop || f.Kind != "hwmon" {
+		return 0
+	}
+	if f.MinPwm != nil {
+		return *f.MinPwm
+	}
+	if f.Measured != nil {
+		for pwm := 0; pwm <= 255; pwm++ {
+			if rpm, ok := f.Measured[pwm]; ok && int(rpm) > 0 {
+				return pwm
+			}
+		}
+	}
+	return 0
 }
 
 func tail(a []int, n int) []int {
